@@ -16,6 +16,7 @@ pub use rten::verif::exec::{
 };
 use std::io::{BufRead, Write};
 pub mod flat;
+pub mod nested;
 
 pub struct SplitMix64(pub u64);
 impl SplitMix64 {
@@ -122,34 +123,43 @@ pub fn fmt_opt_ids(xs: &[Option<u32>]) -> String {
         .collect::<Vec<_>>()
         .join(",")
 }
+/// Lists are printed as `(cons a (cons b nil))`: nested `[a;b]` notations make Coq's parser
+/// backtrack exponentially.
+pub fn coq_cons(items: &[String]) -> String {
+    let mut s = String::new();
+    for it in items {
+        s.push_str("(cons ");
+        s.push_str(it);
+        s.push(' ');
+    }
+    s.push_str("nil");
+    for _ in items {
+        s.push(')');
+    }
+    if items.is_empty() { s } else { s }
+}
 pub fn coq_list<T: ToString>(xs: &[T]) -> String {
-    format!("[{}]", xs.iter().map(|x| x.to_string()).collect::<Vec<_>>().join(";"))
+    coq_cons(&xs.iter().map(|x| x.to_string()).collect::<Vec<_>>())
 }
 pub fn coq_nats(xs: &[u32]) -> String {
-    format!("[{}]", xs.iter().map(|x| format!("{}%nat", x)).collect::<Vec<_>>().join(";"))
+    coq_cons(&xs.iter().map(|x| format!("{}%nat", x)).collect::<Vec<_>>())
 }
 pub fn coq_opt_ids(xs: &[Option<u32>]) -> String {
-    let v: Vec<String> = xs
-        .iter()
-        .map(|x| match x {
-            Some(v) => format!("Some {}", v),
-            None => "None".to_string(),
-        })
-        .collect();
-    format!("[{}]", v.join(";"))
+    coq_cons(
+        &xs.iter()
+            .map(|x| match x {
+                Some(v) => format!("(Some {})", v),
+                None => "None".to_string(),
+            })
+            .collect::<Vec<_>>(),
+    )
 }
 /// A tensor's contents as a Coq `list Z`.
 pub fn coq_v(xs: &[i32]) -> String {
-    format!(
-        "[{}]%Z",
-        xs.iter()
-            .map(|x| if *x < 0 { format!("({})", x) } else { x.to_string() })
-            .collect::<Vec<_>>()
-            .join(";")
-    )
+    coq_cons(&xs.iter().map(|x| if *x < 0 { format!("({})%Z", x) } else { format!("{}%Z", x) }).collect::<Vec<_>>())
 }
 pub fn coq_vs(xs: &[Vec<i32>]) -> String {
-    format!("[{}]", xs.iter().map(|x| coq_v(x)).collect::<Vec<_>>().join(";"))
+    coq_cons(&xs.iter().map(|x| coq_v(x)).collect::<Vec<_>>())
 }
 
 // ------------------------------------------------------------------ flat cases
@@ -333,19 +343,20 @@ pub fn coq_graph(g: &GraphSpec) -> String {
             ),
         })
         .collect();
-    format!("(mk_graph [{}] {})", nodes.join(";"), coq_list(&g.captures))
+    format!("(mk_graph {} {})", coq_cons(&nodes), coq_list(&g.captures))
 }
 
 pub fn coq_opspec(t: &TestOpSpec) -> String {
+    // positional constructor: much cheaper for Coq to elaborate than record syntax
     format!(
-        "{{| o_nout := {}; o_ip := {}; o_comm := {}; o_mut := {}; o_det := {}; o_len := {}; o_mod := {} |}}",
+        "(Build_opspec {} {} {} {} {} {} {})",
         t.n_outputs,
         coq_nats(&t.in_place),
         t.commutative,
         t.mutating,
         t.deterministic,
-        t.out_len.map(|x| format!("Some {}", x)).unwrap_or("None".into()),
-        t.modulus.map(|x| format!("Some {}%Z", x)).unwrap_or("None".into())
+        t.out_len.map(|x| format!("(Some {})", x)).unwrap_or("None".into()),
+        t.modulus.map(|x| format!("(Some {}%Z)", x)).unwrap_or("None".into())
     )
 }
 
@@ -359,18 +370,18 @@ pub fn coq_ops(g: &GraphSpec) -> String {
             _ => None,
         })
         .collect();
-    format!("[{}]", v.join(";"))
+    coq_cons(&v)
 }
 
 pub fn coq_consts(consts: &[(u32, Data)]) -> String {
     let v: Vec<String> = consts.iter().map(|(i, d)| format!("({}, {})", i, d.coq())).collect();
-    format!("[{}]", v.join(";"))
+    coq_cons(&v)
 }
 
 pub fn coq_trace(tr: &[TraceEntry]) -> String {
     let v: Vec<String> =
         tr.iter().map(|e| format!("({}, {}, {})", e.uid, coq_nats(&e.in_place), e.reused)).collect();
-    format!("[{}]", v.join(";"))
+    coq_cons(&v)
 }
 
 /// Result of one run, canonicalised.
@@ -385,8 +396,8 @@ impl IRes {
     pub fn coq(&self) -> String {
         match self {
             IRes::Ok(v) => format!(
-                "IOk [{}]",
-                v.iter().map(|(l, h)| format!("({}%nat, {}%Z)", l, h)).collect::<Vec<_>>().join(";")
+                "IOk {}",
+                coq_cons(&v.iter().map(|(l, h)| format!("({}%nat, {}%Z)", l, h)).collect::<Vec<_>>())
             ),
             IRes::Err => "IErr".into(),
             IRes::Panic => "IPanic".into(),
